@@ -49,6 +49,14 @@ type spec struct {
 	MaxRec int    `json:"maxreconn_ms,omitempty"`
 	Asynch bool   `json:"asynch,omitempty"`
 	Peer   string `json:"peer,omitempty"` // protocol of the waiting peer (real-socket variant)
+	// sizes (every total message size of contiguous windows, back to back on one connection)
+	Lo    int    `json:"lo,omitempty"`
+	Hi    int    `json:"hi,omitempty"`
+	Edges []int  `json:"edges,omitempty"` // further windows: every size within +-EdgeW of each of these
+	EdgeW int    `json:"edgew,omitempty"`
+	Order string `json:"order,omitempty"` // up | down | shuffle
+	Flip  bool   `json:"flip,omitempty"`  // the sending side is the dialer instead of the listener
+	Chop  bool   `json:"chop,omitempty"`  // through the re-segmenting relay
 }
 
 var qlens = []int{0, 1, 2, 128}
@@ -119,6 +127,41 @@ func TestC02(t *testing.T) {
 	for i, pn := 0, r.Pick(16, 600); i < pn; i++ {
 		cases = append(cases, mon.CaseSpec{Name: "pingpong", Spec: spec{Kind: "pingpong", Proto: []string{"push", "xpush", "pair", "xpair"}[i%4], Peers: 1 + (i/4)%2, WQ: []int{1, 8, 128}[rnd.Intn(3)], Msgs: 20000, Procs: []int{0, 2, 4, 16}[(i/8)%4]}})
 	}
+	// sizes: every total size of contiguous windows over every transport with a framing of its own
+	{
+		sprotos := []string{"pair", "pair1", "push"}
+		strans := []string{"tcp", "tls+tcp", "ipc", "ws"}
+		if r.Thorough() {
+			sprotos = append(sprotos, "xpair", "xpush")
+			strans = append(strans, "wss", "inproc")
+		}
+		k := 0
+		for rep := 0; rep < r.Pick(1, 6); rep++ {
+			for _, pr := range sprotos {
+				for _, tr := range strans {
+					sp := spec{Kind: "sizes", Proto: pr, Tran: tr, Lo: 0, Hi: 2200, Edges: []int{4096, 8192, 16384, 65536}, EdgeW: 16,
+						Order: []string{"up", "down", "up", "shuffle"}[k%4], Flip: (k/3)%2 == 1}
+					if rep > 0 {
+						// further windows elsewhere, other queue lengths, the re-segmenting relay
+						sp.Lo = 2200 + rnd.Intn(60000)
+						sp.Hi = sp.Lo + 600
+						sp.Edges = []int{1 << (10 + rnd.Intn(9)), 3 << (9 + rnd.Intn(8)), 32768, 131072, 262144}
+						sp.EdgeW = 24
+						sp.WQ, sp.RQ = qlens[rnd.Intn(4)], qlens[rnd.Intn(4)]
+						if sp.WQ == 0 && (pr == "push" || pr == "xpush") {
+							sp.WQ = 1 // PUSH with WriteQLen 0 never completes a Send (known finding push/send-stuck:wq0, kind pushpull): no sweep possible
+						}
+						sp.Chop = tr != "inproc" && rnd.Intn(3) == 0
+						sp.Order = []string{"up", "down", "shuffle"}[rnd.Intn(3)]
+					} else {
+						sp.WQ, sp.RQ = -1, -1 // queue lengths left alone
+					}
+					cases = append(cases, mon.CaseSpec{Name: "sizes/" + pr + "/" + tr, Spec: sp})
+					k++
+				}
+			}
+		}
+	}
 	r.Run(cases, func(c *mon.Case) {
 		sp := c.Spec.(spec)
 		if sp.Procs > 0 {
@@ -152,6 +195,8 @@ func TestC02(t *testing.T) {
 			runKnockVT(c, sp)
 		case "knockreal":
 			runKnockReal(c, sp)
+		case "sizes":
+			runSizes(c, sp)
 		}
 	})
 }
@@ -1672,4 +1717,222 @@ func runKnockReal(c *mon.Case, sp spec) {
 	c.Count("messages", 2*sp.Msgs+4+2*rounds)
 	c.Nontrivial()
 	c.Sig("knockreal|%s|%s|%s|%s|%v|%d", sp.Proto, sp.Peer, sp.Tran, sp.Hook, sp.Asynch, seen*4/(sp.Peers+1))
+}
+
+// ---- sizes ------------------------------------------------------------------
+//
+// "Delivered exactly once and unchanged" holds for every message length.  What a transport does with a
+// message depends on its length (length prefixes, single-write paths for small frames, scatter/gather for
+// large ones, TLS records, websocket frame header forms at 126 and 65536 bytes, buffer pools by size class),
+// so a sampled handful of lengths says nothing about the lengths next to them.  Here every total length of
+// contiguous windows is sent once, back to back by one goroutine over one connection, and the single
+// receiver must get exactly these messages, byte for byte, in the order sent: a frame that is cut, padded
+// or mis-announced also shifts everything behind it on a byte stream.  PAIR runs both directions at once.
+
+func sizesList(sp spec, rnd interface{ Perm(int) []int }) []int {
+	var l []int
+	for n := sp.Lo; n <= sp.Hi; n++ {
+		l = append(l, n)
+	}
+	for _, e := range sp.Edges {
+		for n := e - sp.EdgeW; n <= e+sp.EdgeW; n++ {
+			if n >= 0 && (n < sp.Lo || n > sp.Hi) {
+				l = append(l, n)
+			}
+		}
+	}
+	switch sp.Order {
+	case "down":
+		for i, j := 0, len(l)-1; i < j; i, j = i+1, j-1 {
+			l[i], l[j] = l[j], l[i]
+		}
+	case "shuffle":
+		p := rnd.Perm(len(l))
+		m := make([]int, len(l))
+		for i, j := range p {
+			m[i] = l[j]
+		}
+		l = m
+	}
+	return l
+}
+
+// sizesFill: message k of direction d with n body bytes.  No byte is zero (a cut tail that is completed
+// from the next frame's length prefix cannot pass for the original) and the pattern depends on the
+// position, the length and the index (a shifted or neighbouring message cannot either).
+func sizesFill(d, k, n int) []byte {
+	b := make([]byte, n)
+	x := uint32(d*7919 + k*31 + n*131)
+	for j := range b {
+		b[j] = byte(1 + (x+uint32(j)*7)%251)
+	}
+	return b
+}
+
+func runSizes(c *mon.Case, sp spec) {
+	peerProto := hx.PeerOf[sp.Proto]
+	dirs := 2
+	hdr := 0
+	switch sp.Proto {
+	case "push", "xpush":
+		dirs = 1
+		if sp.Proto == "xpush" {
+			peerProto = "xpull"
+		}
+	case "pair1":
+		hdr = 4 // the hop count travels as the message header
+	}
+	a := hx.MustSock(c, sp.Proto) // the sender (PUSH) / one end (PAIR)
+	b := hx.MustSock(c, peerProto)
+	if sp.WQ >= 0 {
+		setQ(c, a, sp.WQ, sp.RQ)
+		setQ(c, b, sp.WQ, sp.RQ)
+	}
+	wa, wb := hx.WatchPipes(a), hx.WatchPipes(b)
+	srv, cli := a, b
+	if sp.Flip {
+		srv, cli = b, a
+	}
+	if sp.Chop {
+		stop, err := hx.ConnectChopped(srv, cli, sp.Tran, c.Rand.Int63())
+		if err != nil {
+			c.Inconclusive("setup: %v", err)
+			return
+		}
+		c.Cleanup(stop)
+		c.Count("connections_through_resegmenting_relay", 1)
+	} else if _, _, err := hx.Connect(srv, cli, sp.Tran); err != nil {
+		c.Inconclusive("setup: %v", err)
+		return
+	}
+	if !hx.WaitAttached(c, wa, 1, "sizes A") || !hx.WaitAttached(c, wb, 1, "sizes B") {
+		return
+	}
+	list := sizesList(sp, c.Rand)
+	where := sp.Proto + "/" + sp.Tran
+	var wg, rg sync.WaitGroup
+	var sentN, recvN [2]atomic.Int64
+	var bytesOK atomic.Int64
+	for d := 0; d < dirs; d++ {
+		d := d
+		from, to := a, b
+		if d == 1 {
+			from, to = b, a
+		}
+		wg.Add(1)
+		go func() {
+			defer wg.Done()
+			for k, n := range list {
+				if err := from.Send(sizesFill(d, k, n)); err != nil {
+					if !c.Failed() {
+						c.Violate("sizes/send-error:"+where, "Send of message %d (%d bytes, %d with the protocol header) on a connected %s socket over %s returned %v", k, n, n+hdr, sp.Proto, sp.Tran, err)
+					}
+					return
+				}
+				sentN[d].Add(1)
+			}
+		}()
+		rg.Add(1)
+		go func() {
+			defer rg.Done()
+			for k, n := range list {
+				got, err := to.Recv()
+				if err != nil {
+					if !c.Failed() {
+						c.Violate("sizes/recv-error:"+where, "Recv of message %d (%d bytes) on a connected socket returned %v", k, n, err)
+					}
+					return
+				}
+				want := sizesFill(d, k, n)
+				if !bytes.Equal(got, want) {
+					if c.Failed() {
+						return
+					}
+					diff := 0
+					for diff < len(got) && diff < len(want) && got[diff] == want[diff] {
+						diff++
+					}
+					tail := got
+					if len(tail) > 12 {
+						tail = tail[len(tail)-12:]
+					}
+					prev := -1
+					if k > 0 {
+						prev = list[k-1]
+					}
+					c.Violate(fmt.Sprintf("sizes/message-altered:%s/total%d", where, n+hdr),
+						"%s over %s, direction %d: message %d, sent with %d body bytes (%d with the protocol header; the one before had %d, all sent back to back on one connection that stayed up), arrived with %d bytes, first difference at offset %d, last bytes % x (sent: % x)",
+						sp.Proto, sp.Tran, d, k, n, n+hdr, prev, len(got), diff, tail, want[len(want)-min(12, len(want)):])
+					return
+				}
+				recvN[d].Add(1)
+				bytesOK.Add(int64(n))
+			}
+		}()
+	}
+	sdone := mon.Go("sizes senders", func() (interface{}, error) { wg.Wait(); return nil, nil })
+	rdone := mon.Go("sizes receivers", func() (interface{}, error) { rg.Wait(); return nil, nil })
+	// MaxTimer: a connection that the receiver gave up on (garbage where a length was expected) is redialled after ReconnectTime (100 ms)
+	res := mon.Await(func() bool { return rdone.Done() || c.Failed() }, mon.AwaitOpts{MaxTimer: 200 * time.Millisecond})
+	if res.V != mon.Done {
+		pos := ""
+		for d := 0; d < dirs; d++ {
+			r := int(recvN[d].Load())
+			next := -1
+			if r < len(list) {
+				next = list[r]
+			}
+			pos += fmt.Sprintf(" direction %d: %d of %d Sends returned, %d messages received intact, waiting for one of %d body bytes (%d with the protocol header);", d, sentN[d].Load(), len(list), r, next, next+hdr)
+		}
+		if res.V == mon.Stuck {
+			sig := "sizes/message-lost:" + where
+			if !sdone.Done() {
+				sig = "sizes/send-stuck:" + where
+			}
+			c.Violate(sig, "%s over %s, one connection that stayed up, blocking Sends back to back, peer receiving:%s stuck after %v — every goroutine parked:\n%s", sp.Proto, sp.Tran, pos, res.Waited, res.Dump)
+		} else {
+			c.Inconclusive("sizes %s:%s not done after %v, process still active", where, pos, res.Waited)
+		}
+	}
+	if c.Failed() || c.Undecided() {
+		// let the helper goroutines go
+		a.Close()
+		b.Close()
+		mon.Await(func() bool { return sdone.Done() && rdone.Done() }, mon.AwaitOpts{})
+		return
+	}
+	if !c.AwaitOrViolate("sizes/send-stuck:"+where, "the Sends returning although every message has been received", sdone.Done, mon.AwaitOpts{}) {
+		a.Close()
+		b.Close()
+		return
+	}
+	// nothing further may arrive: PAIR peers have sent exactly len(list) messages each; checked by FIFO — a
+	// sentinel sent now must be the next thing received
+	for d := 0; d < dirs; d++ {
+		from, to := a, b
+		if d == 1 {
+			from, to = b, a
+		}
+		sentinel := []byte(hx.Uniq("sentinel"))
+		if err := from.Send(sentinel); err != nil {
+			c.Violate("sizes/send-error:"+where, "Send of the closing message returned %v", err)
+			return
+		}
+		rc := mon.Go("Recv", func() (interface{}, error) { return to.Recv() })
+		if !c.AwaitOrViolate("sizes/message-lost:"+where, "the closing message arriving", rc.Done, mon.AwaitOpts{}) {
+			a.Close()
+			b.Close()
+			return
+		}
+		v, err, _ := rc.Result()
+		if got, _ := v.([]byte); err != nil || !bytes.Equal(got, sentinel) {
+			c.Violate("sizes/delivered-twice-or-invented:"+where, "after all %d messages had arrived intact, the next message received was %d bytes (err %v) instead of the closing message", len(list), len(got), err)
+			return
+		}
+	}
+	c.Count("messages", dirs*len(list))
+	c.Count("sizes_swept", len(list))
+	c.Count("sizes_bytes_compared", int(bytesOK.Load()))
+	c.Nontrivial()
+	c.Sig("sizes|%s|%s|%d-%d|%v|%s|%v|%v|%d|%d", sp.Proto, sp.Tran, sp.Lo, sp.Hi, sp.Edges, sp.Order, sp.Flip, sp.Chop, sp.WQ, sp.RQ)
 }
